@@ -64,7 +64,8 @@ T_GRIDS = {"zero": [0.0], "std": [0.0, 300.0, 1500.0], "low": [0.5, 2.0, 10.0], 
            "n8": [0.0, 40.0, 150.0, 300.0, 600.0, 900.0, 1400.0, 2100.0],                 # lengths at block-size boundaries
            "n16": [25.0 * k * (1 + k / 8.0) for k in range(16)], "n7": [10.0 + 200.0 * k for k in range(7)],
            "n9": [0.0] + [100.0 * 1.4 ** k for k in range(8)]}
-V_GRIDS = {"three": [280.0, 300.0, 320.0], "one": [311.0], "five": [250.0, 262.0, 300.0, 333.0, 361.0]}
+V_GRIDS = {"three": [280.0, 300.0, 320.0], "one": [311.0], "five": [250.0, 262.0, 300.0, 333.0, 361.0],
+           "n8": [360.0 - 14.0 * k for k in range(8)], "n16": [365.0 - 7.5 * k for k in range(16)], "ascending": [255.0, 290.0, 340.0]}
 
 
 def strain_field(kind, v):
